@@ -1,5 +1,6 @@
 import JSL.Inv.EnvReach
 import JSL.Props.C02
+import JSL.Inv.SetupSep
 
 /-!
 # C09 — sequence-dependent setup times are always paid, using the right matrix entry
@@ -12,6 +13,13 @@ import JSL.Props.C02
 * `c09_processing_after_setup` – SETUP → WORKING is only created once the setup time is up
   (`c02_never_early`) and in every execution it then fires exactly at that instant
   (`c02_on_time`): processing starts exactly the setup time after the job was accepted.
+
+Composed over whole episodes (`Inv/Setup*.lean`, invariant `SetupInv` carried through every
+handler): `c09_mounted_tool` (the mounted tool is the tool of the operation the machine processes /
+processed last), `c09_setup_interval` (while a machine is in SETUP the record of the new operation
+spans exactly the constant matrix entry (tool of the last operation → tool of the new one)), and
+**`c09_consecutive_operations_separated`** – the "so" of the property: consecutive finished
+operations of one machine are separated by at least the setup time, read from-tool → to-tool.
 -/
 
 namespace JSL
@@ -67,5 +75,40 @@ theorem c09_processing_after_setup {cfg : SMConfig} {s0 σ : State} (hst : Start
   split at ht
   · simp at ht; subst ht; rfl
   · simp at ht
+
+/-- the mounted tool of a busy machine is the tool of the operation it works on; of an idle one
+the tool of the operation it finished last -/
+theorem c09_mounted_tool {ec : EnvCfg} {st : RewardStatic} {s0 σ : State} (hst : Start orc inst s0)
+    (h : Exposed orc inst ec st s0 σ) {m : MachineState} (hm : m ∈ σ.machines) :
+    (m.st ≠ .idle → ∀ b, ProcOn (recs σ) m.id b → toolOf inst b = some m.tool) ∧
+    (m.st = .idle → ∀ p, LastDoneOn σ m.id p → toolOf inst p = some m.tool) :=
+  ⟨fun hms _ hb => mounted_busy hst h hm hms hb, fun hms _ hp => mounted_idle hst h hm hms hp⟩
+
+/-- while a machine is in SETUP, the record of the new operation spans exactly the constant matrix
+entry (tool of the operation finished last on it → tool of the new operation), and the machine is
+occupied until then -/
+theorem c09_setup_interval {ec : EnvCfg} {st : RewardStatic} {s0 σ : State} (hst : Start orc inst s0)
+    (h : Exposed orc inst ec st s0 σ) {m : MachineState} (hm : m ∈ σ.machines) (hms : m.st = .setup)
+    {b p : OpState} (hb : ProcOn (recs σ) m.id b) (hp : LastDoneOn σ m.id p) {d : Int} (hd : detSetup inst m.id p b d) :
+    tE p ≤ tS b ∧ b.start = some (tS b) ∧ b.stop = some (tS b + d) ∧ m.occ = some (tS b + d) :=
+  setup_interval hst h hm hms hb hp hd
+
+/-- **Consecutive operations on one machine are separated by at least the setup time**, the matrix
+read from-tool → to-tool: in every state an episode exposes, for finished operations `a`, `b` of one
+machine, `a` ending no later than `b` starts (one of them of positive length), with no third finished
+operation of that machine in between, and a constant entry `d` at (tool of `a`, tool of `b`):
+`end(a) + d ≤ start(b)`. -/
+theorem c09_consecutive_operations_separated {ec : EnvCfg} {st : RewardStatic} {s0 σ : State} (hst : Start orc inst s0)
+    (h : Exposed orc inst ec st s0 σ)
+    {ja jb : JobState} (hja : ja ∈ σ.jobs) (hjb : jb ∈ σ.jobs) {a b : OpState} (ha : a ∈ ja.ops) (hb : b ∈ jb.ops)
+    (hda : a.st = .done) (hdb : b.st = .done) (hm : a.machine = b.machine)
+    {sa ea sb eb : Int} (hsa : a.start = some sa) (hea : a.stop = some ea) (hsb : b.start = some sb) (heb : b.stop = some eb)
+    (hab : ea ≤ sb) (hpos : sa < ea ∨ sb < eb)
+    (hnone : ∀ jc ∈ σ.jobs, ∀ c ∈ jc.ops, c.st = .done → c.machine = b.machine → c ≠ a → c ≠ b →
+      ∀ sc ec', c.start = some sc → c.stop = some ec' → ¬ (ea ≤ sc ∧ ec' ≤ sb))
+    {mc : MachineCfg} (hmc : mc ∈ inst.machines) (hmcid : mc.id = b.machine)
+    {ta tb : Nat} (hta : toolOf inst a = some ta) (htb : toolOf inst b = some tb)
+    {d : Int} (hd : mc.setup.lookup (ta, tb) = some (.det d)) : ea + d ≤ sb :=
+  setup_separates hst h hja hjb ha hb hda hdb hm hsa hea hsb heb hab hpos hnone hmc hmcid hta htb hd
 
 end JSL
